@@ -46,6 +46,13 @@ func runC17(w *World, p map[string]int) {
 		runC17Probe(w, p)
 		return
 	}
+	// modes 3..6: the workloads of other properties (shutdown placement,
+	// restore while the chain moves, removal, crash-free histories) executed
+	// under the race-detector build; their own oracles stay on
+	if r := map[int]string{3: "C20", 4: "C07", 5: "C08", 6: "C01"}[param(p, "mode", 0)]; r != "" {
+		Runners[r](w, p)
+		return
+	}
 	t := w.Plan
 	k := drawKnobs(w)
 	k.GapLimit = 20
